@@ -40,7 +40,7 @@ def requirements(tier):
     for name in E.ALL:
         r[f"judged:{name}/perm"] = 15
         r[f"judged:{name}/zeros"] = 15
-    r.update({"w_rank_deficient_judged": 200, "w_float32": 500, "rng_recorder_hits": 1, "judged_many_zero_columns": 60, "w_all_entries_below_norm_eps_but_s_above": 100, "w_column_major_input": 300})
+    r.update({"w_rank_deficient_judged": 200, "w_float32": 500, "rng_recorder_hits": 1, "judged_many_zero_columns": 60, "w_all_entries_below_norm_eps_but_s_above": 100, "w_column_major_input": 300, "w_dense_wide_matrix": 30})
     return r
 
 
@@ -95,6 +95,12 @@ def gen_wide(rng, i):
     desc = E.config(rng, name, m, dname)
     if desc is None:
         return None
+    if rng.random() < 0.4:
+        # a DENSE wide Jacobian (every parameter matters), with a column count that is no multiple of any plausible block size
+        gen = {"seed": int(rng.integers(1 << 30)), "m": m, "n": int(rng.integers(4097, 9000)), "cond": float(10 ** rng.uniform(0, 1.5)),
+               "scale": float(10 ** rng.uniform(-1, 1))}
+        return {"Jgen": gen, "class": "dense_wide", "dtype": dname, "agg": desc, "kind": ["perm", "zeros"][int(rng.integers(2))],
+                "tseed": int(rng.integers(1 << 30)), "seed": int(rng.integers(1 << 20))}
     return {"J": J.tolist(), "class": "well_conditioned", "dtype": dname, "agg": desc, "kind": "zeros_many", "k": [1000, 20000, 100000][int(rng.integers(3))],
             "tseed": int(rng.integers(1 << 30)), "seed": int(rng.integers(1 << 20))}
 
@@ -102,7 +108,12 @@ def gen_wide(rng, i):
 def check_case(case, ctx):
     dname, desc, kind = case["dtype"], case["agg"], case["kind"]
     name = desc["name"]
-    J64 = np.array(case["J"], dtype=np.float64).reshape(len(case["J"]), -1)
+    if "Jgen" in case:
+        g_ = case["Jgen"]
+        J64 = M.well_conditioned(np.random.default_rng(g_["seed"]), g_["m"], g_["n"], cond=g_["cond"], scale=g_["scale"])
+        ctx.count("w_dense_wide_matrix")
+    else:
+        J64 = np.array(case["J"], dtype=np.float64).reshape(len(case["J"]), -1)
     trng = np.random.default_rng(case["tseed"])
     col_major = bool(trng.random() < 0.2)  # the matrix handed over in a non-contiguous memory layout
     Jt = to_t(J64, dname, column_major=col_major)
@@ -242,7 +253,7 @@ def check_case(case, ctx):
         ctx.count("w_float32")
     ctx.klass(f"class={case['class']}")
     ctx.evaluated(fingerprint(case), nontrivial=nontrivial)
-    ctx.sample({"J": np.round(J, 4).tolist(), "agg": desc, "transformation": kind, "dtype": dname, "class": case["class"]})
+    ctx.sample({"J": np.round(J[:, :8], 4).tolist(), "columns": n, "agg": desc, "transformation": kind, "dtype": dname, "class": case["class"]})
 
 
 def run_shard(shard, ctx):
